@@ -20,6 +20,7 @@ Op lines (see `harness/src/scen_cw4stake.rs`):
     query list_members after=<+a|-text|-> limit=<n|->      query member addr=<+a|-text> at=<h|->
 -/
 -- SCENARIO cw4stake Cw4Stake.scen
+-- SCENARIO cw4stakewide Cw4Stake.scen
 namespace CwPlus.Driver.Cw4Stake
 open CwPlus Wire Driver CwPlus.Cw4Stake CwPlus.Snapshot
 
@@ -34,6 +35,8 @@ structure MState where
   accepting : List Addr := []
   /-- heights at which a transaction succeeded (ascending, no repeats) -/
   heights : List Nat := []
+  /-- header `wide=1` (`cw4stakewide`): the at-height probes use only the 3 most recent recorded heights -/
+  wide : Bool := false
 
 def addrArg (s : String) : AddrArg := let p := parseAddr s; ⟨p.1, p.2⟩
 
@@ -87,7 +90,7 @@ def obsOf (m : MState) : Args :=
   | none => [("uninit", "1")]
   | some w =>
     let s := w.st
-    let hs := probeHeights m.h0 m.blk.height m.heights
+    let hs := probeHeights m.h0 m.blk.height (if m.wide then m.heights.drop (m.heights.length - 3) else m.heights)
     let member := joinC (m.pool.map fun a => s!"{a}:{optNatStr (s.members.get? a)}")
     [("denom", renderDenom s.cfg.denom),
      ("stake", joinC (m.pool.map fun a => s!"{a}:{stakeOf s a}")),
@@ -253,11 +256,26 @@ def monitorOp (mu : Mon) (prev : Args) (toks : List String) (implOk : Bool) (out
     let pool := mu.pool
     let amt := a.nat "amt"
     let coins := parseCoins a
-    let stakeC := fun x => natAt cur "stake" x
-    let stakeP := fun x => natAt prev "stake" x
+    -- the observation fields are parsed once per op (the pool may hold dozens of actors)
+    let stakeCL := (cur.list "stake").map parsePair
+    let stakePL := (prev.list "stake").map parsePair
+    let memCL := (cur.list "member").map parsePairS
+    let memPL := (prev.list "member").map parsePairS
+    let balCL := (cur.list "bal").map parsePair
+    let balPL := (prev.list "bal").map parsePair
+    let claimsCL := obsClaims cur
+    let claimsPL := obsClaims prev
+    let stakeC := fun x => (AMap.get? stakeCL x).getD 0
+    let stakeP := fun x => (AMap.get? stakePL x).getD 0
+    let memC := fun x => (AMap.get? memCL x).getD "?"
+    let memP := fun x => (AMap.get? memPL x).getD "?"
+    let balC := fun x => (AMap.get? balCL x).getD 0
+    let balP := fun x => (AMap.get? balPL x).getD 0
+    let clC := fun x => (claimsCL.get? x).getD []
+    let clP := fun x => (claimsPL.get? x).getD []
     let held := cur.nat "held"
     let sumStake := pool.foldl (fun acc x => acc + stakeC x) 0
-    let sumClaims := (obsClaims cur).foldl (fun acc p => acc + amountSum p.2) 0
+    let sumClaims := claimsCL.foldl (fun acc p => acc + amountSum p.2) 0
     -- ghosts updated by this op
     let donated := if kind == "donate" && implOk then amt else 0
     let mu := { mu with extra := mu.extra + donated }
@@ -270,7 +288,7 @@ def monitorOp (mu : Mon) (prev : Args) (toks : List String) (implOk : Bool) (out
         [mk "C10" "C10/backing-exact" s!"held={held} stakes={sumStake} claims={sumClaims} extra_deposits={mu.extra}"] else [])
     -- member ⇔ stake ≥ min_bond; weight = stake / tokens_per_weight exactly
     let fMem := pool.flatMap fun x =>
-      let w := strAt cur "member" x
+      let w := memC x
       let st := stakeC x
       (if (w != "-") != (decide (mu.minBond ≤ st)) then
         [mk "C10" "C10/member-iff-min-bond" s!"addr={x} stake={st} min_bond={mu.minBond} weight={w}"] else []) ++
@@ -301,8 +319,8 @@ def monitorOp (mu : Mon) (prev : Args) (toks : List String) (implOk : Bool) (out
         else some (mk "C10" "C10/stake-frame" s!"addr={x} stake {stakeP x}->{stakeC x} by {kind} amt={amt} funds={a.str "funds"} from {snd}")
       -- claims: unbond appends (amt, period.after(block)); claim removes exactly the matured ones; nothing else
       let fClaims := if !implOk then [] else pool.flatMap fun x =>
-        let before := claimsAt prev x
-        let after := claimsAt cur x
+        let before := clP x
+        let after := clC x
         if x == snd && kind == "unbond" then
           (if after == before ++ [⟨amt, mu.period.after blk⟩] then []
            else [mk "C10" "C10/claim-release-at" s!"addr={x} claims={renderClaims after} expected={renderClaims (before ++ [⟨amt, mu.period.after blk⟩])}"])
@@ -313,26 +331,26 @@ def monitorOp (mu : Mon) (prev : Args) (toks : List String) (implOk : Bool) (out
         else [mk "C10" "C10/claims-frame" s!"addr={x} claims changed by {kind} from {snd}"]
       -- the claim pays exactly the matured claims, to the claimant, from the contract's holdings
       let fPay := if !(implOk && kind == "claim") then [] else
-        let before := claimsAt prev snd
+        let before := clP snd
         let due := amountSum (matured blk before)
         let expectedMsg := if mu.native then s!"bank/{snd}/{due}{mu.sdenom}" else s!"cw20/{mu.token}/transfer/{snd}/{due}"
         (if due == 0 then [mk "C10" "C10/claim-nothing-matured" s!"claim by {snd} succeeded with no matured claim"] else []) ++
         (if out.str "msgs" != expectedMsg then
           [mk "C10" "C10/claim-payout" s!"msgs={out.str "msgs"} expected={expectedMsg}"] else []) ++
-        (if natAt cur "bal" snd != natAt prev "bal" snd + due then
-          [mk "C10" "C10/claim-payout" s!"balance of {snd}: {natAt prev "bal" snd}->{natAt cur "bal" snd}, matured={due}"] else []) ++
+        (if balC snd != balP snd + due then
+          [mk "C10" "C10/claim-payout" s!"balance of {snd}: {balP snd}->{balC snd}, matured={due}"] else []) ++
         (if held + due != prev.nat "held" then
           [mk "C10" "C10/claim-payout" s!"holdings {prev.nat "held"}->{held}, matured={due}"] else []) ++
         ((before.filter fun c => !c.releaseAt.isExpired blk).filterMap fun c =>
-          if (claimsAt cur snd).contains c then none
+          if (clC snd).contains c then none
           else some (mk "C10" "C10/claim-early" s!"claim {renderClaim c} released at height={blk.height} time={blk.time}"))
       -- user balances move only by the user's own bond / donation (down) or claim (up)
       let fBal := if !implOk then [] else pool.filterMap fun x =>
-        let b0 := natAt prev "bal" x; let b1 := natAt cur "bal" x
+        let b0 := balP x; let b1 := balC x
         let expected : Option Nat :=
           if x == snd && kind == "bond" then (if paid ≤ b0 then some (b0 - paid) else none)
           else if x == snd && (kind == "send" || kind == "donate") then (if amt ≤ b0 then some (b0 - amt) else none)
-          else if x == snd && kind == "claim" then some (b0 + amountSum (matured blk (claimsAt prev x)))
+          else if x == snd && kind == "claim" then some (b0 + amountSum (matured blk (clP x)))
           else some b0
         if expected == some b1 then none
         else some (mk "C10" "C10/balance-frame" s!"addr={x} balance {b0}->{b1} by {kind} from {snd}")
@@ -346,8 +364,8 @@ def monitorOp (mu : Mon) (prev : Args) (toks : List String) (implOk : Bool) (out
         { mu with gclaims := mu.gclaims.set snd (waiting blk ((mu.gclaims.get? snd).getD [])) }
       else mu
     let fLedger := pool.filterMap fun x =>
-      if claimsAt cur x == (mu.gclaims.get? x).getD [] then none
-      else some (mk "C10" "C10/claims-ledger" s!"addr={x} claims={renderClaims (claimsAt cur x)} history_says={renderClaims ((mu.gclaims.get? x).getD [])}")
+      if clC x == (mu.gclaims.get? x).getD [] then none
+      else some (mk "C10" "C10/claims-ledger" s!"addr={x} claims={renderClaims (clC x)} history_says={renderClaims ((mu.gclaims.get? x).getD [])}")
     let f10 := f10 ++ fLedger
     -- ================================================================ C09 (stake part)
     let listed := (cur.list "members").map parsePair
@@ -357,7 +375,7 @@ def monitorOp (mu : Mon) (prev : Args) (toks : List String) (implOk : Bool) (out
       (if sum != total then [mk "C09" "C09/stake/sum" s!"sum_of_listed_weights={sum} total={total}"] else []) ++
       -- listing and point queries agree on the actors
       (pool.filterMap fun x =>
-        let w := strAt cur "member" x
+        let w := memC x
         let l := match AMap.get? listed x with | some v => toString v | none => "-"
         if w == l then none else some (mk "C09" "C09/stake/listing-vs-point" s!"addr={x} member={w} listed={l}")) ++
       (listed.filterMap fun p =>
@@ -367,7 +385,7 @@ def monitorOp (mu : Mon) (prev : Args) (toks : List String) (implOk : Bool) (out
         let (addr, ph, w) := parseHist e
         let expected := match startAt mu.starts ph with
           | some s => (AMap.get? s.members addr).getD "-"
-          | none => strAt cur "member" addr
+          | none => memC addr
         if w == expected then none
         else some (mk "C09" "C09/stake/member-at-height" s!"addr={addr} height={ph} reported={w} start_of_block={expected}")) ++
       -- raw reads = smart reads
@@ -390,8 +408,8 @@ def monitorOp (mu : Mon) (prev : Args) (toks : List String) (implOk : Bool) (out
       let msgs := out.str "msgs"
       let fmsg := if !implOk then [] else
         if kind == "bond" || kind == "send" || kind == "unbond" then
-          let old := strAt prev "member" snd
-          let new := strAt cur "member" snd
+          let old := memP snd
+          let new := memC snd
           let expected := if old == new then ""
             else ";".intercalate ((prev.list "hooks").map fun hk => s!"hook/{hk}/{snd}:{old}:{new}")
           if msgs == expected then []
@@ -402,9 +420,9 @@ def monitorOp (mu : Mon) (prev : Args) (toks : List String) (implOk : Bool) (out
         else [mk "C14" "C14/stake/spurious-message" s!"kind={kind} msgs={msgs}"]
       -- a weight changes only for the sender of a bond / unbond
       let fw := pool.filterMap fun x =>
-        if strAt prev "member" x == strAt cur "member" x then none
+        if memP x == memC x then none
         else if implOk && x == snd && (kind == "bond" || kind == "send" || kind == "unbond") then none
-        else some (mk "C14" "C14/stake/weight-changed-silently" s!"addr={x} weight {strAt prev "member" x}->{strAt cur "member" x} by {kind} from {snd}")
+        else some (mk "C14" "C14/stake/weight-changed-silently" s!"addr={x} weight {memP x}->{memC x} by {kind} from {snd}")
       fauth ++ fmsg ++ fw
     (mu, f10 ++ f9 ++ f14)
 
@@ -412,7 +430,7 @@ def scen : Scen MState Mon where
   init h :=
     { blk := ⟨h.nat "height", h.nat "time"⟩, h0 := h.nat "height", pool := h.list "pool",
       bal0 := (h.list "bal").map parsePair, sdenom := h.str "sdenom", token := h.str "token",
-      accepting := h.list "hooks_ok" }
+      accepting := h.list "hooks_ok", wide := h.str "wide" == "1" }
   step := stepOp
   obs := obsOf
   monInit h :=
